@@ -1894,6 +1894,301 @@ impl Ctx {
       self.rep.sample(json!({"kind":"credential scenario","origin":w.origin,"first_calls":tail,"calls":w.hist.len()}));
     }
   }
+
+  // ----------------------------------------------------------------------------------------
+  // several status lists with near-miss identifiers: a status is only ever answered from the referenced list
+  // ----------------------------------------------------------------------------------------
+
+  /// `cred` (status entry `spec`) has its entry in `owner`; it is checked against `other`, a different list that
+  /// neither by its `id` nor by its `credentialSubject.id` is the one named in `statusListCredential`.
+  /// The statement ties the reported status to the credential's own entry: refusing is always fine (any error),
+  /// but a verdict that contradicts the owner's bit is a status taken from the wrong list.
+  fn check_foreign(&mut self, owner: &CredWorld, other: &CredWorld, cred: &Credential, spec: &StatusSpec, mode: StatusCheck, kind: &str) {
+    if spec.index >= owner.model.len() || spec.index >= other.model.len() {
+      return;
+    }
+    let truth = owner.model.get(spec.index);
+    let other_bit = other.model.get(spec.index);
+    let call = format!(
+      "check_status_with_status_list_2021(cred[statusListCredential={} purpose={} index={} via {}], OTHER list id={} credentialSubject.id={} purpose={}, {:?})",
+      spec.url, purpose_str(spec.purpose), spec.index, spec.made_by, other.cid, other.sid, purpose_str(other.purpose), mode
+    );
+    self.rep.inc("foreign_checks");
+    if other.purpose == owner.purpose && other_bit != truth {
+      self.rep.inc("foreign_checks_bits_differ");
+    }
+    let verdict = match catch(|| JwtCredentialValidatorUtils::check_status_with_status_list_2021(cred, &other.lc, mode)) {
+      Err(p) => {
+        self.on_panic("check_status_with_status_list_2021", false, &p, self.cred_case(other, &call, json!({"len":other.model.len()})));
+        return;
+      }
+      Ok(Ok(())) => Verdict::Ok,
+      Ok(Err(JwtValidationError::Revoked)) => Verdict::Revoked,
+      Ok(Err(JwtValidationError::Suspended)) => Verdict::Suspended,
+      Ok(Err(e)) => Verdict::OtherErr(e.to_string()),
+    };
+    let case = json!({
+      "near_miss_kind": kind,
+      "credential_status": {"statusListCredential": spec.url, "statusPurpose": purpose_str(spec.purpose), "statusListIndex": spec.index, "made_by": spec.made_by},
+      "own_list": {"id": owner.cid, "credentialSubject.id": owner.sid, "purpose": purpose_str(owner.purpose), "entry_at_index": truth, "origin": owner.origin,
+                   "recent_calls": owner.hist.iter().rev().take(6).rev().collect::<Vec<_>>()},
+      "checked_against": {"id": other.cid, "credentialSubject.id": other.sid, "purpose": purpose_str(other.purpose), "entry_at_index": other_bit, "origin": other.origin,
+                   "recent_calls": other.hist.iter().rev().take(6).rev().collect::<Vec<_>>()},
+      "mode": format!("{:?}", mode), "verdict": format!("{:?}", verdict),
+    });
+    let own_kind_revoked = owner.purpose == StatusPurpose::Revocation;
+    match (&verdict, truth) {
+      (Verdict::OtherErr(_), _) => self.rep.inc("foreign_refused"),
+      (Verdict::Ok, false) => self.rep.inc("foreign_consistent_with_own_list"),
+      (Verdict::Ok, true) => self.rep.violation(
+        "status:set-entry-passed-by-other-list",
+        &format!("{} = Ok(()): the credential's entry {} is set in its own {} list {}; the list given is a different one (entry there: {})", call, spec.index, purpose_str(owner.purpose), spec.url, other_bit),
+        case,
+      ),
+      (Verdict::Revoked, false) | (Verdict::Suspended, false) => self.rep.violation(
+        "status:reported-from-other-list",
+        &format!("{} = {:?}: the credential's entry {} is not set in its own list {}; the verdict comes from a different list (entry there: {})", call, verdict, spec.index, spec.url, other_bit),
+        case,
+      ),
+      (Verdict::Revoked, true) if own_kind_revoked => self.rep.inc("foreign_consistent_with_own_list"),
+      (Verdict::Suspended, true) if !own_kind_revoked => self.rep.inc("foreign_consistent_with_own_list"),
+      (Verdict::Revoked, true) | (Verdict::Suspended, true) => self.rep.violation(
+        "status:wrong-kind-from-other-list",
+        &format!("{} = {:?}: the credential's entry is set in a {} list; the kind reported is that of a different list", call, verdict, purpose_str(owner.purpose)),
+        case,
+      ),
+    }
+  }
+
+  /// Builds one world and makes sure the identifiers the oracle reasons with are the ones the credential carries
+  /// (a set-up guard, not an oracle: on a difference the scenario is skipped and counted).
+  fn foreign_world(&mut self, model: Model, purpose: StatusPurpose, via_builder: bool, cid: &str, sid: &str, gz: u64, origin: Value) -> Option<CredWorld> {
+    let lc = self.make_list_cred(&model, purpose, via_builder, cid, sid, gz, &origin)?;
+    let ids = catch(|| serde_json::to_value(&lc)).ok().and_then(|r| r.ok()).map(|v| {
+      (v.get("id").and_then(|x| x.as_str()).map(str::to_string), v.get("credentialSubject").and_then(|s| s.get("id")).and_then(|x| x.as_str()).map(str::to_string))
+    });
+    if ids != Some((Some(cid.to_string()), Some(sid.to_string()))) {
+      self.rep.inc("foreign_setup_ids_differ");
+      return None;
+    }
+    self.rep.inc("list_credentials");
+    let w = CredWorld { lc, model, purpose, cid: cid.to_string(), sid: sid.to_string(), origin, hist: Vec::new() };
+    let m0 = w.model.clone();
+    if self.cred_compare(&w, &[&m0], &m0, &[], "construction") {
+      return None;
+    }
+    Some(w)
+  }
+
+  /// Every pooled credential against every list: its own list through the ordinary oracle, every other list
+  /// through `check_foreign` unless that list shares the identifier named by the entry (then the entry is
+  /// genuinely ambiguous and nothing is claimed).
+  fn foreign_closing(&mut self, worlds: &[CredWorld], pool: &[(Credential, StatusSpec, usize)], modes: &[StatusCheck], kind: &str) {
+    for (cred, spec, owner) in pool {
+      for (j, wj) in worlds.iter().enumerate() {
+        for mode in modes {
+          if j == *owner {
+            // only when no other list shares that identifier either
+            if worlds.iter().enumerate().any(|(k, wk)| k != j && (wk.cid == spec.url || wk.sid == spec.url)) {
+              self.rep.inc("foreign_skipped_shared_id");
+              continue;
+            }
+            self.check_status(wj, cred, Some(spec), *mode);
+          } else if wj.cid == spec.url || wj.sid == spec.url {
+            self.rep.inc("foreign_skipped_shared_id");
+          } else {
+            self.check_foreign(&worlds[*owner], wj, cred, spec, *mode, kind);
+          }
+        }
+      }
+    }
+  }
+
+  /// The smallest two-list history: two lists published in one document, told apart by the fragment of their
+  /// credentialSubject.id only (the builder gives both the same credential id).
+  fn canon_foreign(&mut self, template: &Credential) {
+    for purpose in [StatusPurpose::Revocation, StatusPurpose::Suspension] {
+      for (kind, ida, idb) in [
+        ("fragment", "https://example.com/status#list-a", "https://example.com/status#list-b"),
+        ("query", "https://example.com/status?list=a", "https://example.com/status?list=b"),
+        ("prefix", "https://example.com/status/1", "https://example.com/status/10"),
+      ] {
+        self.rep.eval();
+        let mut worlds: Vec<CredWorld> = Vec::new();
+        for sid in [ida, idb] {
+          let cid = sid.split('#').next().unwrap_or("").to_string();
+          let origin = json!({"list_credential":"StatusList2021CredentialBuilder::new(StatusList2021::default())","id":cid,"credentialSubject.id":sid,"purpose":purpose_str(purpose)});
+          if let Some(w) = self.foreign_world(Model { bytes: vec![0; MIN_ENTRIES / 8] }, purpose, true, &cid, sid, 0, origin) {
+            worlds.push(w);
+          }
+        }
+        if worlds.len() != 2 {
+          continue;
+        }
+        let mut pool: Vec<(Credential, StatusSpec, usize)> = Vec::new();
+        // alice: set in A[7]; bob: clear in A[8]; carol: set in B[8]
+        for (owner, i, v) in [(0usize, 7usize, true), (0, 8, false), (1, 8, true)] {
+          let mut c = template.clone();
+          match self.cred_set_status(&mut worlds[owner], &mut c, i, v) {
+            None => return,
+            Some(Some(spec)) => pool.push((c, spec, owner)),
+            Some(None) => {}
+          }
+        }
+        self.foreign_closing(&worlds, &pool, &[StatusCheck::Strict], kind);
+        self.rep.distinct("nontrivial", &format!("canon-foreign|{}|{}", purpose_str(purpose), kind));
+      }
+    }
+  }
+
+  fn run_foreign_scenario(&mut self, rng: &mut Rng, nops: usize, template: &Credential) {
+    self.rep.eval();
+    let kind = rng.usize(NEAR_MISS_KINDS.len());
+    let kind_s = NEAR_MISS_KINDS[kind];
+    let n = rng.below(1000);
+    let mut variants = near_miss_urls(kind, n);
+    rng.shuffle(&mut variants);
+    let nworlds = if rng.chance(1, 3) { 3 } else { 2 }.min(variants.len());
+    variants.truncate(nworlds);
+    // id layout: 0 = builder (credentialSubject.id = variant, id = variant without fragment); 1 = JSON, id = credentialSubject.id = variant;
+    // 2 = JSON, ids are the near-miss variants, subject ids unrelated; 3 = JSON, subject ids are the variants, ids unrelated
+    let layout = *rng.pick(&[0u8, 0, 0, 0, 1, 1, 2, 3, 3]);
+    let main_purpose = if rng.bool() { StatusPurpose::Revocation } else { StatusPurpose::Suspension };
+    let pattern = *rng.pick(&[0u64, 0, 1, 2, 3, 6]);
+    let pseed = rng.next_u64();
+    let base_bytes = pattern_bytes(pattern, 16_384, pseed);
+    let mut worlds: Vec<CredWorld> = Vec::new();
+    for (k, v) in variants.iter().enumerate() {
+      let (cid, sid) = match layout {
+        0 => (v.split('#').next().unwrap_or("").to_string(), v.clone()),
+        1 => (v.clone(), v.clone()),
+        2 => (v.clone(), format!("https://example.com/subjects/{}/{}#list", n, k)),
+        _ => (format!("https://example.com/credentials/status/{}/{}", n, k), v.clone()),
+      };
+      let purpose = if k == 0 || rng.chance(4, 5) {
+        main_purpose
+      } else if main_purpose == StatusPurpose::Revocation {
+        StatusPurpose::Suspension
+      } else {
+        StatusPurpose::Revocation
+      };
+      let nbytes = *rng.pick(&[16_384usize, 16_384, 16_385, 20_000]);
+      // list k>0: the complement of list 0 (every entry differs), or an unrelated pattern
+      let complement = k > 0 && rng.chance(2, 3);
+      let mut bytes = if k == 0 || complement { base_bytes.clone() } else { pattern_bytes(*rng.pick(&[0u64, 1, 2, 6]), 16_384, rng.next_u64()) };
+      if complement {
+        bytes.iter_mut().for_each(|b| *b = !*b);
+      }
+      bytes.resize(nbytes, 0x5A);
+      let gz = rng.below(5);
+      let origin = json!({
+        "list_credential": if layout == 0 { "StatusList2021CredentialBuilder" } else { "deserialised from JSON" },
+        "id": cid, "credentialSubject.id": sid, "purpose": purpose_str(purpose), "nbytes": nbytes,
+        "pattern": if complement { format!("complement of list 0 ({})", PATTERN_NAMES[pattern as usize]) } else if k == 0 { PATTERN_NAMES[pattern as usize].to_string() } else { "unrelated".to_string() },
+        "pattern_seed": pseed, "gzip": GZ_NAMES[gz as usize],
+      });
+      match self.foreign_world(Model { bytes }, purpose, layout == 0, &cid, &sid, gz, origin) {
+        Some(w) => worlds.push(w),
+        None => return,
+      }
+    }
+    let min_len = 16_384 * 8;
+    let hot: Vec<usize> = (0..4).map(|k| match (k, rng.below(3)) {
+      (0, 0) => 0,
+      (1, 0) => min_len - 1,
+      _ => rng.usize(min_len),
+    }).collect();
+    let mut pool: Vec<(Credential, StatusSpec, usize)> = Vec::new();
+    for _ in 0..nops {
+      let a = rng.usize(worlds.len());
+      let i = *rng.pick(&hot);
+      match rng.below(10) {
+        0..=5 => {
+          // the issuer of list a gives a credential entry i; another list sometimes gets the opposite value at the same index
+          let v = rng.bool();
+          let mut c = template.clone();
+          match self.cred_set_status(&mut worlds[a], &mut c, i, v) {
+            None => return,
+            Some(Some(spec)) => pool.push((c, spec, a)),
+            Some(None) => {}
+          }
+          if rng.chance(1, 2) {
+            let b = (a + 1 + rng.usize(worlds.len() - 1)) % worlds.len();
+            let want = !worlds[a].model.get(i);
+            if rng.bool() {
+              let mut c2 = template.clone();
+              match self.cred_set_status(&mut worlds[b], &mut c2, i, want) {
+                None => return,
+                Some(Some(spec)) => pool.push((c2, spec, b)),
+                Some(None) => {}
+              }
+            } else if !self.cred_update(&mut worlds[b], &[(i, want)], true) {
+              return;
+            }
+          }
+        }
+        6..=7 => {
+          // an entry written by hand that names list a by its credential id
+          let spec = StatusSpec { url: worlds[a].cid.clone(), purpose: worlds[a].purpose, index: i, made_by: "harness" };
+          let sj = Ctx::status_json(&spec, rng.chance(1, 3));
+          match catch(|| serde_json::from_value::<Status>(sj)) {
+            Ok(Ok(st)) => {
+              let mut c = template.clone();
+              c.credential_status = Some(st);
+              pool.push((c, spec, a));
+            }
+            Ok(Err(_)) => self.rep.inc("status_json_rejected"),
+            Err(p) => self.on_panic("Status::deserialize", false, &p, json!({"spec":format!("{:?}", spec)})),
+          }
+        }
+        8 => {
+          // a later write to the owner's list changes the truth for credentials already pooled
+          let v = rng.bool();
+          if !self.cred_update(&mut worlds[a], &[(i, v)], rng.bool()) {
+            return;
+          }
+        }
+        _ => {
+          // publish / fetch
+          let wa = &mut worlds[a];
+          wa.hist.push("to_json/from_json".into());
+          let r = catch(|| serde_json::to_string(&wa.lc).ok().and_then(|s| serde_json::from_str::<StatusList2021Credential>(&s).ok()));
+          if let Ok(Some(back)) = r {
+            self.rep.inc("cred_json_roundtrips");
+            wa.lc = back;
+            let m = wa.model.clone();
+            let bad = self.cred_compare(&worlds[a], &[&m], &m, &[], "to_json/from_json");
+            if bad && !self.rebuild_world(&mut worlds[a]) {
+              return;
+            }
+          }
+        }
+      }
+    }
+    let modes: &[StatusCheck] = if rng.chance(1, 3) { &[StatusCheck::Strict, StatusCheck::SkipUnsupported] } else { &[StatusCheck::Strict] };
+    self.foreign_closing(&worlds, &pool, modes, kind_s);
+    self.rep.inc("foreign_scenarios");
+    self.rep.distinct("nontrivial", &format!("foreign|{}|{}|{}|{}|{}", kind_s, layout, worlds.len(), purpose_str(main_purpose), worlds.iter().any(|w| w.purpose != main_purpose)));
+    if self.rep.want_sample() {
+      self.rep.sample(json!({"kind":"near-miss list identifiers","near_miss_kind":kind_s,"lists":worlds.iter().map(|w| w.origin.clone()).collect::<Vec<_>>(),"credentials":pool.len()}));
+    }
+  }
+}
+
+const NEAR_MISS_KINDS: [&str; 7] = ["fragment", "query", "trailing-slash", "path-case", "prefix", "scheme-port", "host"];
+
+/// Identifiers that differ from one another only slightly (all already in the normal form of the URL parser).
+fn near_miss_urls(kind: usize, n: u64) -> Vec<String> {
+  let base = format!("https://example.com/status/{}", n);
+  match kind {
+    0 => vec![format!("{base}#list-a"), format!("{base}#list-b"), format!("{base}#list-a2"), format!("{base}#"), format!("{base}#List-a"), base.clone()],
+    1 => vec![format!("{base}?v=1"), format!("{base}?v=2"), format!("{base}?v=1&x"), format!("{base}?"), base.clone(), format!("{base}?v=1#list")],
+    2 => vec![base.clone(), format!("{base}/"), format!("{base}//"), format!("{base}/#list")],
+    3 => vec![format!("{base}/List"), format!("{base}/list"), format!("{base}/LIST"), format!("{base}/list#List"), format!("{base}/list#list")],
+    4 => vec![base.clone(), format!("{base}0"), format!("{base}/0"), format!("{base}.json"), format!("{base}#0")],
+    5 => vec![base.clone(), format!("http://example.com/status/{n}"), format!("https://example.com:8443/status/{n}"), format!("http://example.com:8080/status/{n}")],
+    _ => vec![base.clone(), format!("https://example.org/status/{n}"), format!("https://www.example.com/status/{n}"), format!("https://example.com.evil.test/status/{n}")],
+  }
 }
 
 // ------------------------------------------------------------------------------------------
@@ -1918,6 +2213,10 @@ fn main() {
      earlier index modulo / plus / minus a power of two; after each write those related entries, all written entries and both ends are read \
      (such lists are never swept or encoded); (3) status-list-credential scenarios \
      (set_credential_status, update/set_entry, entry, JSON round trip, check_status_with_status_list_2021) for both purposes. \
+     (3b) two or three status-list credentials whose identifiers differ only by fragment / query / trailing slash / letter case / \
+     being a prefix / scheme+port / host and whose entries differ: credentials given a status in one list (set_credential_status or a \
+     hand-written entry) are checked against every list; against a list that the entry does not name only a refusal or a verdict that agrees \
+     with the credential's own entry is accepted. \
      Every case is judged against the harness's own byte-vector model and own decoder. non-trivial+distinct: histories classed by \
      (creation route, size class, pattern, gzip flavour, #writes, #reads, #out-of-range probes); scenarios by (purpose, route, id layout, size, pattern, #calls)",
   );
@@ -2008,6 +2307,7 @@ fn main() {
     .expect("template credential");
   if args.shard == 0 {
     cx.canon_cred(&template);
+    cx.canon_foreign(&template);
   }
 
   // ---- (1) exhaustive single-write table
@@ -2103,6 +2403,15 @@ fn main() {
     let big = s % 16 == 7 && scale >= 100;
     let nops = if scale < 100 { 12 } else if big { 15 } else { 40 };
     cx.run_cred_scenario(&mut rng3, nops, big, &template);
+  }
+
+  // ---- (3b) several status lists with near-miss identifiers
+  let mut rng3b = args.rng(1204);
+  let n_fs = scaled(if thorough { 4_000 } else { 160 }, scale);
+  let per_shard = n_fs.div_ceil(args.nshards.max(1));
+  for _ in 0..per_shard {
+    let nops = if scale < 100 { 4 } else { 10 };
+    cx.run_foreign_scenario(&mut rng3b, nops, &template);
   }
   cx.rep.finish();
 }
